@@ -11,7 +11,8 @@ RULE = ("(1) generation time: APIs whose request messages declare every kind of 
         "method / an omitted existing method / no method at all), and — through the real generator path API.build + Generator.get_response — with the "
         "services spread over proto sub-packages (all top-level / mixed / all in sub-packages, one or two sub-packages); one case = one (API, settings list); non-trivial = some entry lists at least one field or a selector repeats. "
         "(2) call time: generated libraries (grpc+rest) with accepted settings, every auto-populated method called through the sync gRPC, "
-        "asyncio gRPC and REST clients with the field unset / empty / set, request given as message, dict, None or flattened keywords, "
+        "asyncio gRPC and REST clients with the field unset / empty / set, request given as message, dict, or flattened keyword arguments "
+        "(each id field passed as \"\" / a value / omitted), "
         "two or three calls each; one case = one (library, method, client kind, request mode, caller valuation); all are non-trivial. "
         "Distinct = distinct canonical JSON.")
 TRUSTED = [
@@ -561,6 +562,8 @@ def call_api(r, index=0):
             fields.append((n, "string", kw))
         for i, (n, t, kw) in enumerate(fields, 1):
             m.field(n, i, t, **kw)
+        if sig:         # flattened keyword arguments include the id fields: the caller may pass "" / a UUID / nothing as a keyword
+            sig = list(sig) + [n for n, _ in ids]
         svc.rpc(rpc, m.fqn, book.fqn, http=http, body=body, sigs=[",".join(sig)] if sig else [])
         candidates = [n for n, kw in ids if kw.get("uuid4")]
         auto = r.sample(candidates, r.randint(1, len(candidates)))
@@ -708,7 +711,7 @@ def eval_call(ctx, D, i, b64, settings, c, res, checks, pending, generated):
             if n == "parent":
                 continue
             present, val = obs[n]
-            given = st[n] if c["mode"] != "kwargs" else None
+            given = st[n] if c["mode"] != "kwargs" or n in (c.get("passed") or []) else None
             listed = n in m["auto"]
             unset = given is None or (given == "" and not f["optional"])
             if listed and unset:
@@ -719,16 +722,18 @@ def eval_call(ctx, D, i, b64, settings, c, res, checks, pending, generated):
             else:
                 if listed and f["optional"] and given == "":
                     ctx.features[f"optional-set-empty-listed-{kind}"] += 1
+                    if c["mode"] == "kwargs":
+                        ctx.features[f"optional-set-empty-as-keyword-{kind}"] += 1
                 want_present, want_val = (given is not None, given or "") if f["optional"] else (bool(given), given or "")
                 if (present, val) != (want_present, want_val):
                     why = "a caller-provided value was altered" if given else ("a field that is not auto-populated was touched" if not listed else "an optional field set to the empty string was overwritten")
                     pending.append((None, f"{label} call {k}: {why}: field {n} sent as {val!r} (present={present}), caller gave {given!r}", case))
         # ---- model = implementation, inside Coq ----
-        stv = coq.lst(f"({coq.s(n)}, VStr {coq.s(v)})" for n, v in st.items() if v is not None and c["mode"] != "kwargs")
+        stv = coq.lst(f"({coq.s(n)}, VStr {coq.s(v)})" for n, v in st.items() if v is not None and (c["mode"] != "kwargs" or n in (c.get("passed") or [])))
         order = []
         for n in m["auto"]:
             present, val = obs[n]
-            given = st[n] if c["mode"] != "kwargs" else None
+            given = st[n] if c["mode"] != "kwargs" or n in (c.get("passed") or []) else None
             if present and val != (given or "") and n not in [x for x, _ in order]:
                 order.append((n, val))
         us = coq.slist(v for _, v in order)
@@ -792,23 +797,25 @@ def run_calls(ctx, n_libs, seed_tag="C18-lib"):
         r = env.rng(seed_tag + "-calls", i)
         calls = []
         for m in methods:
-            for st in caller_states(r, m):
+            for si, st in enumerate(caller_states(r, m)):
                 msg = D.new(m["req_fqn"].lstrip("."))
                 msg.parent = "projects/p1"
                 for n, v in st.items():
                     if v is not None:
                         setattr(msg, n, v)       # optional '' keeps presence; plain '' is the default
                 for kind, client in (("grpc", base + "LibraryClient"), ("grpc_asyncio", base + "LibraryAsyncClient"), ("rest", base + "LibraryClient")):
-                    modes = ["message", "dict"]
-                    if all(v is None for v in st.values()):
-                        modes.append("kwargs" if m["sig"] else "message")
+                    modes = ["message", "dict"] + (["kwargs", "kwargs"] if m["sig"] else [])
                     mode = r.choice(modes)
+                    if m["sig"] and si in (1, 3):       # all fields "" / the proto3-optional fields "": always also as keyword arguments
+                        mode = "kwargs"
                     rq = {"mode": mode, "cls": f"{m['types_mod']}:{m['rpc']}Request", "b64": dyn.Dyn.b64(msg)}
-                    if mode == "kwargs":
-                        rq["kwargs"] = list(m["sig"])
+                    passed = None
+                    if mode == "kwargs":            # a field whose state is None is simply not passed
+                        passed = ["parent"] + [n for n in m["sig"][1:] if st.get(n) is not None]
+                        rq["kwargs"] = passed
                     calls.append({"spec": {"service_module": "library", "client": client, "transport": kind, "method": m["client_name"], "request": rq,
                                            "repeat": r.choice([2, 3]), "http_default": {"status": 200, "body": "{}"}},
-                                  "m": m, "state": st, "kind": kind, "mode": mode})
+                                  "m": m, "state": st, "kind": kind, "mode": mode, "passed": passed})
         drives.append((i, req, methods, settings, root, D, calls))
     outs = gen.pmap(lambda d: gen.impl("drive", {"root": d[4], "package": "google.example.library_v1", "calls": [c["spec"] for c in d[6]]}), drives)
     for (i, req, methods, settings, root, D, calls), out in zip(drives, outs):
@@ -836,6 +843,9 @@ def run_calls(ctx, n_libs, seed_tag="C18-lib"):
     nointernal = [k for k in ("grpc", "grpc_asyncio", "rest") if not ctx.features.get(f"internal-method-with-settings-{k}")]
     ctx.oblige("inputs: an auto-populated method OMITTED by selective generation and kept as internal (_name) was called through the sync, asyncio "
                "and REST paths", not nointernal or len(drives) < 2, f"paths without such a call: {nointernal}", "T2")
+    nokw = [k for k in ("grpc", "grpc_asyncio", "rest") if not ctx.features.get(f"optional-set-empty-as-keyword-{k}")]
+    ctx.oblige('inputs: a listed proto3-optional field passed as the KEYWORD argument "" (flattened call) went through the sync, asyncio and REST paths',
+               not nokw or not drives, f"paths without such a call: {nokw}", "T2")
     missing = [k for k in ("grpc", "grpc_asyncio", "rest") if not ctx.features.get(f"optional-set-empty-listed-{k}")]
     ctx.oblige("inputs: a listed proto3-optional field explicitly set to the empty string was sent through the sync, asyncio and REST paths",
                not missing or not drives, f"paths without such a call: {missing}", "T2")
@@ -1130,7 +1140,8 @@ def replay(ctx, rep):
         for h in out.get("http_calls", []):
             print("replay: request at the HTTP server:", h["verb"], h["path"], h["query"], h["body"])
         checks, pending, generated = [], [], []
-        call = {"spec": c["spec"], "m": c["method"], "state": c["state"], "kind": c["spec"]["transport"], "mode": c["spec"]["request"]["mode"]}
+        call = {"spec": c["spec"], "m": c["method"], "state": c["state"], "kind": c["spec"]["transport"], "mode": c["spec"]["request"]["mode"],
+                "passed": c["spec"]["request"].get("kwargs")}
         eval_call(ctx, D, 0, c["request_b64"], c["settings"], call, out, checks, pending, generated)
         failing, errors, _ = coq.eval_checks("c18replaycall", IMPORTS, library_defs(0, [c["method"]], c["settings"]), checks)
         ctx.oblige("replay: requests at the server = Model.exec", not failing and not errors, "; ".join(failing + errors)[:600])
